@@ -112,6 +112,8 @@ def rows(tier: str):
         ('chain-none-new', 'chain',
          [[trig(b, 'none')], [trig(a, 'new')]], 0, None, {}),
         ('ordiamond-new', 'ordiamond', [[trig(a, 'new')]], 0, None, {}),
+        ('chain-wait-all', 'chain',
+         [[trig(b, '1', True)], [trig(a, 'all')]], 0, None, {}),
         ('chain-set-set', 'chain',
          [[setout(a, 'new')], [setout(b, '1', True)]], 0, None, {}),
     ]
